@@ -53,11 +53,19 @@ def gen_cases(rng, tier):
     cases = []
     syms = sorted(siref.REF) + list(siref.TEMPERATURE)
     pairs = list(itertools.product(syms, syms))
+    w0, _ = RW.replay({'dm': 'MHEVEN', 'pre': True, 'script': []})
+
+    def defined(u, v, o):
+        du, dv = w0.unit_value(u)[1], w0.unit_value(v)[1]
+        d = RW.vmul(du, dv if o == 'mul' else RW.vpow(dv, -1))
+        return (not d) or w0.cls_of_dims(d) is not None
     if tier == 'quick':
-        pairs = rng.sample(pairs, 420)
+        # half of the sample from the pairs whose result is defined (or cancels)
+        good = [(u, v) for u, v in pairs if defined(u, v, 'mul') or defined(u, v, 'div')]
+        pairs = rng.sample(pairs, 200) + rng.sample(good, 320)
     for u, v in pairs:
         for o in ('mul', 'div'):
-            if tier == 'quick' and rng.random() < 0.5:
+            if tier == 'quick' and not defined(u, v, o) and rng.random() < 0.6:
                 continue
             if o == 'div' and u in siref.TEMPERATURE and v in siref.TEMPERATURE and u != v:
                 continue            # affine conversion: C14's domain
@@ -117,6 +125,9 @@ def _check_si(w):
     return msg
 
 
+_DM = ["MHEVEN"]
+
+
 def _val(w, opd):
     """(exact factor, dims over base units) of an operand; numbers have no dims"""
     if opd[0] == 'n':
@@ -128,7 +139,7 @@ def _val(w, opd):
         # the operand is built as number * unit: a quantized type stores it rounded
         qu = w.unit_quantum(sym)
         if qu is not None:
-            a = to_quantum(_val.dm, a, qu)
+            a = to_quantum(_DM[0], a, qu)
     return a * f, d
 
 
@@ -195,7 +206,7 @@ def oracle(case, r):
     m = case['q']['o']
     res = r['res']
     dm = case['dm']
-    _val.dm = dm
+    _DM[0] = dm
     exp = expected(w, dm, m)
     what = f"{m}"
     if res.get('float'):
